@@ -24,7 +24,7 @@ def run(ctx):
     res = _merge(r1, r2)
     import random
     import pycode  # translator validation: generated Lean definitions vs the real functions (harness/pycode.py)
-    pycode.check(res, random.Random(ctx["seed"] * 7919 + 77), ctx["tier"], ["uid", "params", "schedule", "structparams"])
+    pycode.check(res, random.Random(ctx["seed"] * 7919 + 77), ctx["tier"], ["uid", "params", "schedule", "structparams", "sensors"])
     res.failures.sort(key=lambda f: f["kind"] != "spec")
     return res
 
